@@ -122,4 +122,16 @@ C24_RunMatchesMachine ==
 \* escaped text is always accepted, and contains no anchor
 C24_EscIsAccepted ==
     Finished => AcceptsHtml(Esc(cs)) /\ (\A k \in 1..Len(Esc(cs)) : ~IsRawMeta(Esc(cs)[k]))
+
+\* tojson of any text the machine can build, however it reaches the filter and whether or not it
+\* carries a safety mark, is the serialisation of the text and contains none of < > & '
+C24_JsonIgnoresSafetyMark ==
+    Finished =>
+        /\ JsonOf(M(cs)) = JsonOf(S(cs))
+        /\ \A src \in Sources : \A a \in {S(cs), M(cs)} :
+              LET v == Reaches(src, a, <<cLT, cSQ>>, <<cAMP, cGT>>)
+              IN /\ v.t \in {"s", "m"}
+                 /\ JsonOf(v) = JsonStr(v.v)
+                 /\ HtmlSafeJson(JsonOf(v))
+                 /\ src \notin {"data", "string"} => v.t = "m"
 =============================================================================
